@@ -32,7 +32,9 @@ Record case := mk_case {
   o_conc : list (list (bool * Z * Z));    (* per goroutine, per call/op: error?, digest|#relations, rows affected|#fields *)
   o_serial : list (list (bool * Z * Z));
   o_final_c : Z; o_final_s : Z; (* digest of the final dump: concurrent, serial *)
-  c_used : list ty; o_builds : list ty;
+  c_used : list ty;
+  c_prewarm : list ty;          (* cold rounds: types used once, serially, before the goroutines start *)
+  o_builds : list ty;
   o_bad : Z;                    (* hangs + crashes outside schema initialisation + panics + setup errors *)
   o_races : list (nat * string * string)  (* category, normalised function pair *)
 }.
@@ -105,11 +107,15 @@ Fixpoint closure (cfg : config) (fuel : nat) (todo seen : list ty) : list ty :=
 Definition subset (a b : list ty) : bool := forallb (fun x => existsb (Nat.eqb x) b) a.
 Definition set_eqb (a b : list ty) : bool := subset a b && subset b a.
 Definition closure_fuel (c : case) : nat :=
-  S (length (c_used c)) + fold_right (fun l n => (S (length l) + n)%nat) 0%nat (c_cfg c) * S (length (c_cfg c)).
+  S (length (c_used c) + length (c_prewarm c)) + fold_right (fun l n => (S (length l) + n)%nat) 0%nat (c_cfg c) * S (length (c_cfg c)).
 
 Definition builds_agree (c : case) : bool :=
   if c_warm c then match o_builds c with [] => true | _ => false end
-  else set_eqb (o_builds c) (closure (c_cfg c) (closure_fuel c) (c_used c) []).
+  else
+    let pre := closure (c_cfg c) (closure_fuel c) (c_prewarm c) [] in
+    set_eqb (o_builds c)
+            (filter (fun t => negb (existsb (Nat.eqb t) pre))
+                    (closure (c_cfg c) (closure_fuel c) (c_used c) [])).
 
 Definition model_agrees (c : case) : bool :=
   negb (c_valid c) ||
